@@ -133,6 +133,17 @@ class RecordObj:
         return f"{self.cls_name}(" + ", ".join(f"{n}={v!r}" for n, v in zip(self.names, self.values)) + ")"
 
 
+class ObjInstance:
+    """Instance of a private plain class (or mutable dataclass) of the analysed module: attributes set by __init__ /
+    methods, looked up before the class's methods and class-level constants."""
+
+    def __init__(self, cls_name, node, module):
+        self.cls_name, self.node, self.module, self.attrs = cls_name, node, module, {}
+
+    def __repr__(self):
+        return f"<{self.cls_name} " + ", ".join(f"{k}={v!r}" for k, v in self.attrs.items()) + ">"
+
+
 class _Closure:
     def __init__(self, fn, env, ev, self_obj=None, module=None):
         self.fn, self.env, self.ev, self.self_obj = fn, env, ev, self_obj
@@ -288,6 +299,11 @@ class Evaluator:
                     raise Unsupported("unpacking length mismatch")
                 for e, x in zip(tgt.elts, vs):
                     self.assign(e, x, env)
+        elif isinstance(tgt, ast.Attribute):
+            obj = self.ev(tgt.value, env)
+            if not isinstance(obj, ObjInstance):
+                raise Unsupported("attribute assignment on something that is not a private plain object")
+            obj.attrs[tgt.attr] = v
         elif isinstance(tgt, ast.Subscript):
             obj = self.ev(tgt.value, env)
             if isinstance(obj, dict):
@@ -416,7 +432,7 @@ class Evaluator:
     def truth(self, v):
         if isinstance(v, (bool, int, list, tuple, collections.deque, str, type(None), dict)):
             return bool(v)
-        if isinstance(v, (StubObj, RecordObj)):
+        if isinstance(v, (StubObj, RecordObj, ObjInstance)):
             return True
         if isinstance(v, ChainNode):
             return len(v.children) > 0    # Chain defines __len__
@@ -454,7 +470,13 @@ class Evaluator:
         node = ci.node
         bases = {ast.unparse(b).split(".")[-1] for b in node.bases}
         decos = {ast.unparse(d.func if isinstance(d, ast.Call) else d).split(".")[-1] for d in node.decorator_list}
-        if "NamedTuple" not in bases and "dataclass" not in decos:
+        frozen_dc = any(isinstance(d, ast.Call) and ast.unparse(d.func).split(".")[-1] == "dataclass" and any(
+            k.arg == "frozen" and isinstance(k.value, ast.Constant) and k.value.value is True for k in d.keywords)
+            for d in node.decorator_list)
+        plain_ok = not [b for b in bases if b not in ("object",)] and not (decos - {"dataclass"})
+        if "NamedTuple" not in bases and not frozen_dc:
+            if plain_ok:
+                return ("plain-class", name, node, module, "dataclass" in decos)
             return None
         names, defaults, methods = [], {}, {}
         for st in node.body:
@@ -652,6 +674,25 @@ class Evaluator:
             return self.qualified(base[1] + "." + attr)
         if isinstance(base, tuple) and base[:2] == ("builtin", "itertools.chain") and attr == "from_iterable":
             return ("builtin", "chain.from_iterable")
+        if isinstance(base, ObjInstance):
+            if attr in base.attrs:
+                return base.attrs[attr]
+            for st in base.node.body:
+                if isinstance(st, ast.FunctionDef) and st.name == attr:
+                    decos = [ast.unparse(d) for d in st.decorator_list]
+                    clo = _Closure(st, {}, self, base, module=base.module)
+                    if "property" in decos:
+                        return self.apply(clo, [], {})
+                    if "staticmethod" in decos:
+                        return _Closure(st, {}, self, module=base.module)
+                    if decos:
+                        raise Unsupported(f"decorated method {attr}")
+                    return clo
+                if isinstance(st, (ast.Assign, ast.AnnAssign)):
+                    tg = st.targets[0] if isinstance(st, ast.Assign) else st.target
+                    if isinstance(tg, ast.Name) and tg.id == attr and st.value is not None:
+                        return self.ev(st.value, {})
+            raise Unsupported(f"attribute {attr} of {base.cls_name}")
         if isinstance(base, RecordObj):
             if attr in base.names:
                 return base.values[base.names.index(attr)]
@@ -820,6 +861,46 @@ class Evaluator:
                         raise Unsupported(f"record field {n_} not given")
                     vals[n_] = self.ev(defaults[n_], {})
             return RecordObj(cname, list(names), [vals[n_] for n_ in names], methods, module, is_nt)
+        if isinstance(f, tuple) and f and f[0] == "plain-class":
+            _, cname, node, module, is_dc = f
+            obj = ObjInstance(cname, node, module)
+            init = next((st for st in node.body if isinstance(st, ast.FunctionDef) and st.name == "__init__"), None)
+            if init is not None:
+                self.apply(_Closure(init, {}, self, obj, module=module), args, kwargs)
+            elif is_dc:
+                fields = [(st.target.id, st.value) for st in node.body if isinstance(st, ast.AnnAssign) and
+                          isinstance(st.target, ast.Name) and "ClassVar" not in ast.unparse(st.annotation)]
+                names = [n_ for n_, _ in fields]
+                vals = dict(zip(names, args))
+                if len(args) > len(names) or set(kwargs) - set(names) or set(kwargs) & set(vals):
+                    raise Unsupported("dataclass constructor arguments")
+                vals.update(kwargs)
+                for n_, dflt in fields:
+                    if n_ not in vals:
+                        if dflt is None:
+                            raise Unsupported(f"dataclass field {n_} not given")
+                        if isinstance(dflt, ast.Call) and ast.unparse(dflt.func).split(".")[-1] == "field":
+                            df_ = next((k.value for k in dflt.keywords if k.arg == "default_factory"), None)
+                            d0_ = next((k.value for k in dflt.keywords if k.arg == "default"), None)
+                            if df_ is not None:
+                                fac = self.ev(df_, {})
+                                vals[n_] = self.call(ast.Call(func=df_, args=[], keywords=[]), {}) if not isinstance(fac, tuple) \
+                                    else ({"list": [], "dict": {}, "tuple": ()}.get(fac[1]) if fac[0] == "builtin" else None)
+                                if vals[n_] is None:
+                                    raise Unsupported("default_factory")
+                            elif d0_ is not None:
+                                vals[n_] = self.ev(d0_, {})
+                            else:
+                                raise Unsupported("dataclass field() without a default")
+                        else:
+                            vals[n_] = self.ev(dflt, {})
+                obj.attrs.update(vals)
+                post = next((st for st in node.body if isinstance(st, ast.FunctionDef) and st.name == "__post_init__"), None)
+                if post is not None:
+                    self.apply(_Closure(post, {}, self, obj, module=module), [], {})
+            elif args or kwargs:
+                raise Unsupported("arguments to a class without __init__")
+            return obj
         if isinstance(f, tuple) and f and f[0] == "record-replace":
             base = f[1]
             if args or set(kwargs) - set(base.names):
